@@ -19,6 +19,7 @@
 package api
 
 import (
+	"bytes"
 	"encoding/json"
 	"fmt"
 	"sort"
@@ -59,6 +60,15 @@ type MetaMsg struct {
 	Base BaseTaskMsg            `json:"base"`
 	Type MetaMsgType            `json:"type"`
 	Data map[string]interface{} `json:"data"`
+}
+
+// UnmarshalJSON keeps the numbers of the data map as they were written (json.Number): a drop timestamp is a 64-bit
+// hybrid timestamp, and decoding it through float64 loses its low bits.
+func (msg *MetaMsg) UnmarshalJSON(data []byte) error {
+	type plainMetaMsg MetaMsg
+	decoder := json.NewDecoder(bytes.NewReader(data))
+	decoder.UseNumber()
+	return decoder.Decode((*plainMetaMsg)(msg))
 }
 
 func (msg MetaMsg) ToJSON() (string, error) {
